@@ -31,6 +31,16 @@ def gen_cases(tier, seed):
             hb = {"nodes": hn, "edges": he, "flow": {e: (float(v) if wt_ == "float" else v) for e, v in hf.items()}, "planted": [], "wt": wt_, "mode": "edge"}
             sup_ = [f_ + 1, f_ + 1] if wt_ == "int" else [f_ + 1.0, f_ + 1.0]
             cases.append({"cyc": False, "mode": "edge", "wt": wt_, "k": 2, "ignore": [], "scale": [], "starts": [], "ends": [], "superset": sup_, "planted": [], "spec": I.spec_of(hb)})
+    # corpus (trust percentile): zero-flow edges next to the flow (a percentile value of 0 must not reserve a walk for them), and an ignored edge
+    # with an outlier value (it must not move the percentile)
+    for E_, ig_, k_ in (([("s", "a", 5), ("a", "b", 0), ("a", "t", 5), ("b", "t", 0)], [], 1),
+                        ([("s", "a", 4), ("a", "t", 4), ("s", "b", 90), ("b", "t", 1), ("a", "b", 0)], [["s", "b"]], 1),
+                        ([("s", "a", 3), ("a", "c", 3), ("c", "a", 0), ("c", "t", 3), ("s", "t", 0)], [], 1),
+                        ([("s", "a", 2), ("a", "t", 2), ("s", "t", 50), ("s", "c", 7), ("c", "t", 7)], [["s", "t"]], 2)):
+        for p_ in (0, 25, 50, 75):
+            nodes_ = list(dict.fromkeys(x for u, v, _ in E_ for x in (u, v)))
+            base = {"nodes": nodes_, "edges": [(u, v) for u, v, _ in E_], "flow": {(u, v): f for u, v, f in E_}, "planted": [], "wt": "int", "mode": "edge"}
+            cases.append({"cyc": True, "mode": "edge", "wt": "int", "k": k_, "ignore": ig_, "scale": [], "starts": [], "ends": [], "superset": None, "planted": [], "trusted_pct": p_, "spec": I.spec_of(base)})
     # corpus: two instances on which HiGHS with presolve goes wrong (known findings, classified by re-solving with presolve off)
     hn = {"v3": 3, "v4": 13, "v0": 13, "v2": 3, "v5": 3, "v1": 8, "v6": 2, "v7": 5}
     he2 = [("v3", "v4"), ("v3", "v5"), ("v3", "v6"), ("v3", "v7"), ("v0", "v3"), ("v0", "v1"), ("v2", "v5"), ("v2", "v3"), ("v1", "v2"), ("v1", "v5")]
@@ -110,6 +120,10 @@ def build_kw(case, k):
         kw["elements_to_ignore"] = case["ignore"]
     if case["scale"]:
         kw["error_scaling"] = case["scale"]
+        h_ = int(hashlib.sha1(repr(case["scale"]).encode()).hexdigest(), 16)
+        if h_ % 5 == 0:
+            # the same factors (0, 1/4, 1/2, 3/4, 1: exact in every float type) as numpy scalars or fractions
+            kw["error_scaling_number_type"] = ["float32", "Fraction", "float16", "float64"][(h_ // 5) % 4]
     if case["starts"]:
         kw["additional_starts"] = case["starts"]
     if case["ends"]:
@@ -184,9 +198,11 @@ def run_case(case):
         trusted = {models._elem(e) for e in case["trusted"]} - ignored
     elif case.get("trusted_pct") is not None:
         import numpy as np
-        vals = [d["flow"] for u, v, d in G.edges(data=True) if "flow" in d]
+        # the percentile is taken over the edges whose value counts (an ignored or zero-scaled edge may carry any value), and - as without a
+        # percentile - only edges of non-zero flow are ever trusted
+        vals = [d["flow"] for u, v, d in G.edges(data=True) if "flow" in d and (u, v) not in ignored]
         thr = float(np.percentile(vals, case["trusted_pct"])) if vals else 0
-        trusted = {(u, v) for u, v, d in G.edges(data=True) if "flow" in d and d["flow"] >= thr} - ignored
+        trusted = {(u, v) for u, v, d in G.edges(data=True) if "flow" in d and d["flow"] >= thr and d["flow"] > 0} - ignored
     def trust_cols(cols):
         return [[i for i, c_ in enumerate(cols) if c_.get(e, 0) > 0] for e in sorted(trusted)] if trusted else None
     desc = f"{'cyclic' if cyc else 'DAG'} mode={mode} wt={wt} k={k} {dshow} ignore={sorted(map(str, ign))} scale={sc} starts={case['starts']} ends={case['ends']} superset={case['superset']}" + (f" trusted={sorted(trusted)}" if trusted is not None else "")
